@@ -63,10 +63,12 @@ type Clause struct {
 }
 
 type PredDecl struct {
-	Name   string
-	Params []string
-	Body   Expr
-	Kind   string // pred | spec
+	Name       string
+	Params     []string
+	ParamTypes []string
+	ResType    string
+	Body       Expr
+	Kind       string // pred | spec | rec
 }
 
 type FuncContract struct {
@@ -77,6 +79,7 @@ type FuncContract struct {
 	File    string
 	Line    int
 	Header  string
+	Unfold  []string // nil: all recursive definitions are given to the solver; else only these
 }
 
 func (fc *FuncContract) Key() string {
@@ -96,6 +99,7 @@ type PkgContracts struct {
 	NoInline map[string]bool
 	Assumes  []string
 	Files    []string
+	Bits     map[string]int
 }
 
 // ---------------------------------------------------------------- lexer
@@ -420,7 +424,7 @@ func (p *parser) primary() Expr {
 
 var blockRe = regexp.MustCompile(`(?s)/\*@(.*?)@\*/`)
 var clauseKw = map[string]bool{"requires": true, "ensures": true, "modifies": true, "loop": true, "panics": true,
-	"assume": true, "exit": true, "func": true, "pred": true, "spec": true, "inline": true, "noinline": true, "pure": true, "ghost": true}
+	"assume": true, "exit": true, "func": true, "pred": true, "spec": true, "inline": true, "noinline": true, "pure": true, "ghost": true, "rec": true, "bits": true, "unfold": true}
 
 // ReadContracts parses every contracts_verif*.go file of a package directory.
 func ReadContracts(dir string) (*PkgContracts, error) {
@@ -490,7 +494,21 @@ func (pc *PkgContracts) parseBlock(body, file string, line0 int) error {
 			}
 			pc.Funcs[fc.Key()] = fc
 			cur = fc
-		case "pred", "spec":
+		case "bits":
+			cur = nil
+			f := strings.Fields(it.text)
+			if len(f) != 2 {
+				return errf("bits <TypeName> <width>")
+			}
+			n, err := strconv.Atoi(f[1])
+			if err != nil {
+				return errf("bits width: %v", err)
+			}
+			if pc.Bits == nil {
+				pc.Bits = map[string]int{}
+			}
+			pc.Bits[f[0]] = n
+		case "pred", "spec", "rec":
 			cur = nil
 			eq := strings.Index(it.text, "=")
 			if eq < 0 {
@@ -502,13 +520,19 @@ func (pc *PkgContracts) parseBlock(body, file string, line0 int) error {
 			if op < 0 || cl < op {
 				return errf("pred header")
 			}
-			pd := &PredDecl{Name: strings.TrimSpace(head[:op]), Kind: it.kw}
+			pd := &PredDecl{Name: strings.TrimSpace(head[:op]), Kind: it.kw, ResType: strings.TrimSpace(head[cl+1:])}
 			for _, prm := range strings.Split(head[op+1:cl], ",") {
 				prm = strings.TrimSpace(prm)
 				if prm == "" {
 					continue
 				}
-				pd.Params = append(pd.Params, strings.Fields(prm)[0])
+				f := strings.Fields(prm)
+				pd.Params = append(pd.Params, f[0])
+				if len(f) > 1 {
+					pd.ParamTypes = append(pd.ParamTypes, f[1])
+				} else {
+					pd.ParamTypes = append(pd.ParamTypes, "")
+				}
 			}
 			e, err := ParseExpr(it.text[eq+1:])
 			if err != nil {
@@ -529,6 +553,14 @@ func (pc *PkgContracts) parseBlock(body, file string, line0 int) error {
 			cl := &Clause{Kind: it.kw, Text: it.text, Line: it.line}
 			text := it.text
 			switch it.kw {
+			case "unfold":
+				cur.Unfold = []string{}
+				for _, f := range strings.FieldsFunc(text, func(r rune) bool { return r == ',' || r == ' ' }) {
+					if f != "none" {
+						cur.Unfold = append(cur.Unfold, f)
+					}
+				}
+				continue
 			case "loop":
 				f := strings.Fields(text)
 				if len(f) < 3 {
